@@ -10,7 +10,7 @@ TRUST = ("Trusted: the harness's executable reference models; imbl, tokio::sync:
 
 CHECKS = {
  # id: (engine, category, text, technique, design_ref)
- "C01": ("obs", "exploration", "Runtime monitor: call histories on the real Observable/SharedObservable (incl. write guards, read guards, clones, into_shared) are compared call by call with a version-counter model; payload type whose hash ignores one field separates equality from hash; exhaustive d<=4 (quick) / d<=5 (thorough) over a ~35-operation state-dependent alphabet for both observable kinds, random histories of 60-300 calls with <=5 subscribers, on both lock flavours; overlapping calls of the async-lock flavour (a subscriber's next()/next_ref() and a writer queued behind a held guard) through guard scripts.", "runtime monitoring: history + executable reference model", "5/C01"),
+ "C01": ("obs+thr", "exploration", "Runtime monitor: call histories on the real Observable/SharedObservable (incl. write guards, read guards, clones, into_shared) are compared call by call with a version-counter model; payload type whose hash ignores one field separates equality from hash; exhaustive d<=4 (quick) / d<=5 (thorough) over a ~35-operation state-dependent alphabet for both observable kinds, random histories of 60-300 calls with <=5 subscribers, on both lock flavours; overlapping calls of the async-lock flavour (a subscriber's next()/next_ref() and a writer queued behind a held guard) through guard scripts.", "runtime monitoring: history + executable reference model", "5/C01"),
  "C02": ("obs+thr", "exploration", "Three monitors: (a) after every single operation of a sequential history every Pending subscriber's waker must have been woken if an update/close happened since (exhaustive d<=6 / 7, random); (b) director-forced schedules at the __verif pause points and at the clone of the supplied waker, 7 scenarios, all orders, verdict at join from poll results and wake flags; (c) free-running writer/subscriber threads with hook-injected yields and a timing-free quiescence oracle. The thread parts also run under ThreadSanitizer (thorough) and Miri (thorough).", "runtime monitoring: wake-obligation invariant + forced schedules + stress with quiescence oracle; TSan/Miri", "5/C02"),
  "C03": ("obs+thr", "exploration", "(a) owner-count model over clone/drop/downgrade/upgrade/into_shared/subscribe/poll histories (exhaustive d<=6 / 7, random); (b) director scenarios: two/three threads dropping the last clones, last drop || upgrade, drop || upgrade || poll - every order at sdrop:enter/decided, upgrade:between, close:*, poll:*; verdict at join: subscribers ended iff no handle left; (c) free-running rounds. Thread parts also under TSan/Miri in the thorough tier.", "runtime monitoring: reference model + forced schedules at the decision/release window", "5/C03"),
  "C04": ("thr", "exploration", "Offline checkers over recorded histories of 2-4 real threads: unique-valued register (exact order reconstructed from returned predecessors; real-time order; stale/early reads), contended conditional setters (never store an equal value; conservation of previous values), append-only list (no lost closure, prefix reads within completed/invoked bounds, subscribers monotone and handed the final value), guard exclusion; guard scenarios and the value-lock exclusion invariant under the director in every forced schedule; the register workload also on the async-lock flavour. Thorough tier repeats the workloads under ThreadSanitizer and Miri (many seeds).", "runtime monitoring: linearizability checking of recorded histories (unique values / append-only list), lock-exclusion invariant; TSan/Miri", "5/C04"),
@@ -34,7 +34,7 @@ CHECKS = {
 
 # workloads added after the third round of seeded changes (DESIGN.md 14.6)
 ADD = {
- "C01": "Conditional setters that store nothing are also judged on the identity of the stored instance; same-waker mode; clone_from between observables.",
+ "C01": "Conditional setters that store nothing are also judged on the identity of the stored instance; same-waker mode; clone_from between observables; a director scenario runs subscribe + first poll on one thread against write accesses that do not notify on another (every order at the pause points).",
  "C02": "Poll storms (dozens of distinct wakers pending between two updates), one-waker-per-subscriber mode, and a many-waiters thread round (up to 120 wakers pending at once against 1-3 writer threads).",
  "C04": "A many-waiters round (poller threads multiplexing 8-40 subscribers each) adds the lost-wakeup and final-value oracle for more than 32/64 simultaneous waiters.",
  "C05": "Backlog histories (capacities 64-1024, rare polls: one batched poll collects dozens of messages); transactions of 33-140 operations; a Reset for a subscriber that never fell behind is a C05 fault too.",
@@ -48,7 +48,8 @@ ADD = {
  "C15": "Backlog and far-run generators as in C09.",
  "C16": "One-waker-per-subscriber mode (will_wake paths), poll storms.",
  "C18": "Targets and payloads with an internal structure that comes from a history (carved out of larger vectors, shifted fronts, several leaves although short).",
- "C19": "Clone::clone_from between handles of two observables.",
+ "C19": "Clone::clone_from between handles of two observables (also over the last owner); clone/drop/downgrade/upgrade of handles while a write or read guard is alive.",
+ "C03": "Clone::clone_from overwriting the last owner must end every subscriber stream like a drop does.",
  "C20": "Large-vector variants of the vector and adapter accounting runs.",
 }
 
@@ -86,7 +87,7 @@ m = {
  "engines": [
   {"name": "vec", "path": "harness/src/engine_vec.rs", "serves_properties": ["C05","C06","C07","C08","C17","C20"], "kind_free_text": "sequential history executor + monitors on the real ObservableVector<Tracked>"},
   {"name": "obs", "path": "harness/src/engine_obs.rs", "serves_properties": ["C01","C02","C03","C16","C19","C20"], "kind_free_text": "sequential Observable/SharedObservable executor for both lock flavours with a version/owner/count model"},
-  {"name": "thr", "path": "harness/src/engine_thr.rs", "serves_properties": ["C02","C03","C04","C16"], "kind_free_text": "thread director forcing schedules at the __verif pause points; free-running rounds with injected yields; offline history checkers"},
+  {"name": "thr", "path": "harness/src/engine_thr.rs", "serves_properties": ["C01","C02","C03","C04","C16"], "kind_free_text": "thread director forcing schedules at the __verif pause points; free-running rounds with injected yields; offline history checkers"},
   {"name": "misc", "path": "harness/src/runners_misc.rs", "serves_properties": ["C18","C20"], "kind_free_text": "exhaustive diff map/apply execution; bulk drop-accounting runs"},
   {"name": "adp", "path": "harness/src/engine_adp.rs", "serves_properties": ["C09","C10","C11","C12","C13","C14","C15","C20"], "kind_free_text": "adapter/chain executor with transparent taps, event log and per-stage oracles"},
  ],
